@@ -228,6 +228,13 @@ Proof.
     eapply bsub_trans; [apply IH; exact Ht | exact Hc].
 Qed.
 
+Lemma bcommon_nth shapes u : bcommon shapes u -> forall i, bsub (nth i shapes []) u.
+Proof.
+  intros H i. destruct (Nat.lt_ge_cases i (length shapes)) as [Hi|Hi].
+  - unfold bcommon in H. rewrite Forall_forall in H. apply H. now apply nth_In.
+  - rewrite nth_overflow by lia. apply bsub_nil.
+Qed.
+
 (* ================================================================ Part 2: operator graphs over tensors *)
 Definition tscalar {A} (c : A) : tensor A := mkT [] (fun _ => c).
 (* ternary elementwise operator with multidirectional broadcasting (ONNX Where / Clip) *)
@@ -362,12 +369,6 @@ Section KExpr.
       assert (Sbc : bsub (bcast_shape (kshape b shapes) (kshape c shapes)) u) by now apply bsub_bcast_lub.
       split; [|now apply bsub_bcast_lub].
       repeat split; auto; eapply bsub_bcompat; eauto.
-  Qed.
-  Lemma bcommon_nth shapes u : bcommon shapes u -> forall i, bsub (nth i shapes []) u.
-  Proof.
-    intros H i. destruct (Nat.lt_ge_cases i (length shapes)) as [Hi|Hi].
-    - unfold bcommon in H. rewrite Forall_forall in H. apply H. now apply nth_In.
-    - rewrite nth_overflow by lia. apply bsub_nil.
   Qed.
   (* the shape of the graph's value is an upper bound of the shapes of the operands it uses *)
   Lemma kshape_ub e shapes : kwf e shapes -> forall i, kuses i e -> bsub (nth i shapes []) (kshape e shapes).
@@ -813,3 +814,212 @@ Qed.
 Definition tin (sb : ity) (X : tensor Z) : Prop := forall idx, in_range (shape X) idx -> in_int sb (at_ X idx).
 Lemma tin_bcast sb X u idx : tin sb X -> bsub (shape X) u -> in_range u idx -> in_int sb (bcast_at X idx).
 Proof. intros Ht Hs Hi. apply Ht. now apply balign_in_range_sub with (u := u). Qed.
+
+(* ---- (c) THE LIFTED KERNEL THEOREMS: the tensor-level evaluation of the emitted operator graph on any
+   broadcast-compatible operands is the tensor-level JAX function (elementwise jax_k over the broadcast operands).
+   The side conditions are the scalar ones, required of every pair of elements that meet under broadcasting. *)
+Definition zt (X : tensor Z) : tensor sval := tmap VZ X.
+Definition bt (X : tensor bool) : tensor sval := tmap VB X.
+Definition qt (X : tensor frac) : tensor sval := tmap VQ X.
+Definition tdom1 {A} (P : A -> Prop) (X : tensor A) : Prop := forall idx, in_range (shape X) idx -> P (at_ X idx).
+Definition tdom2 {A B} (P : A -> B -> Prop) (X : tensor A) (Y : tensor B) : Prop :=
+  forall idx, in_range (bcast_shape (shape X) (shape Y)) idx -> P (bcast_at X idx) (bcast_at Y idx).
+Definition tdom3 {A B C} (P : A -> B -> C -> Prop) (X : tensor A) (Y : tensor B) (Z : tensor C) : Prop :=
+  forall idx, in_range (bcast_shape (shape X) (bcast_shape (shape Y) (shape Z))) idx ->
+    P (bcast_at X idx) (bcast_at Y idx) (bcast_at Z idx).
+Definition ttrue2 {A B} : A -> B -> Prop := fun _ _ => True.
+Definition ttrue3 {A B C} : A -> B -> C -> Prop := fun _ _ _ => True.
+Lemma tdom2_true {A B} (X : tensor A) (Y : tensor B) : tdom2 ttrue2 X Y. Proof. intros idx _. exact I. Qed.
+Lemma tdom3_true {A B C} (X : tensor A) (Y : tensor B) (Z : tensor C) : tdom3 ttrue3 X Y Z. Proof. intros idx _. exact I. Qed.
+
+Ltac kuses_tac := unfold ke_neg, ke_floor_divide, ke_shift_left, ke_shift_right_logical, ke_shift_right_arithmetic; repeat (cbn; try match goal with |- context [if is_signed ?s then _ else _] => destruct (is_signed s) end); tauto.
+
+Section Lifted.
+  Variable sb : ity.
+  Hypothesis Hb : 0 < snd sb.
+
+  Theorem add_lifted X Y : bcompat (shape X) (shape Y) ->
+    teq (kev_t (ke_add sb) [zt X; zt Y]) (zt (tmap2b (jax_add sb) X Y)).
+  Proof. intro H. apply (@lift2_k SZ SZ SZ (ke_add sb) (lowered_add sb) (jax_add sb) ttrue2); auto using tdom2_true; try kuses_tac; try (intros idx _; exact I). Qed.
+  Theorem sub_lifted X Y : bcompat (shape X) (shape Y) ->
+    teq (kev_t (ke_sub sb) [zt X; zt Y]) (zt (tmap2b (jax_sub sb) X Y)).
+  Proof. intro H. apply (@lift2_k SZ SZ SZ (ke_sub sb) (lowered_sub sb) (jax_sub sb) ttrue2); auto using tdom2_true; try kuses_tac; try (intros idx _; exact I). Qed.
+  Theorem mul_lifted X Y : bcompat (shape X) (shape Y) ->
+    teq (kev_t (ke_mul sb) [zt X; zt Y]) (zt (tmap2b (jax_mul sb) X Y)).
+  Proof. intro H. apply (@lift2_k SZ SZ SZ (ke_mul sb) (lowered_mul sb) (jax_mul sb) ttrue2); auto using tdom2_true; try kuses_tac; try (intros idx _; exact I). Qed.
+  Theorem neg_lifted X : tdom1 (in_int sb) X -> teq (kev_t (ke_neg sb) [zt X]) (zt (tmap (jax_neg sb) X)).
+  Proof.
+    intro H. apply (@lift1_k SZ SZ (ke_neg sb) (lowered_neg sb) (jax_neg sb) (in_int sb)); auto.
+    - intro x. apply ke_neg_sound. - kuses_tac. - intros x Hx. now apply neg_correct.
+  Qed.
+  Theorem abs_lifted X : is_signed sb = true -> tdom1 (in_int sb) X -> teq (kev_t (ke_abs sb) [zt X]) (zt (tmap (jax_abs sb) X)).
+  Proof.
+    intros Hs H. apply (@lift1_k SZ SZ (ke_abs sb) (lowered_abs sb) (jax_abs sb) (in_int sb)); auto.
+    - kuses_tac. - intros x Hx. now apply abs_correct.
+  Qed.
+  Theorem sign_lifted X : tdom1 (in_int sb) X -> teq (kev_t (ke_sign sb) [zt X]) (zt (tmap (jax_sign sb) X)).
+  Proof.
+    intro H. apply (@lift1_k SZ SZ (ke_sign sb) (lowered_sign sb) (jax_sign sb) (in_int sb)); auto.
+    - kuses_tac. - intros x Hx. now apply sign_correct.
+  Qed.
+  Theorem bitnot_lifted X : tdom1 (in_int sb) X -> teq (kev_t (ke_bitnot sb) [zt X]) (zt (tmap (jax_bitnot sb) X)).
+  Proof.
+    intro H. apply (@lift1_k SZ SZ (ke_bitnot sb) (lowered_bitnot sb) (jax_bitnot sb) (in_int sb)); auto.
+    - kuses_tac. - intros x Hx. now apply bitnot_correct.
+  Qed.
+  (* division family: no division by zero and no INT_MIN / -1 at any pair of elements that meet *)
+  Theorem div_lifted X Y : bcompat (shape X) (shape Y) ->
+    tdom2 (fun x y => in_int sb x /\ in_int sb y /\ div_dom sb x y) X Y ->
+    teq (kev_t (ke_div sb) [zt X; zt Y]) (zt (tmap2b (jax_div sb) X Y)).
+  Proof.
+    intros H Hd. apply (@lift2_k SZ SZ SZ (ke_div sb) (lowered_div sb) (jax_div sb) _ (ke_div_sound sb)) with (5 := Hd); auto; try kuses_tac.
+    intros x y (Hx & Hy & Hxy). now apply div_correct.
+  Qed.
+  Theorem rem_lifted X Y : bcompat (shape X) (shape Y) ->
+    tdom2 (fun x y => in_int sb x /\ in_int sb y /\ y <> 0) X Y ->
+    teq (kev_t (ke_rem sb) [zt X; zt Y]) (zt (tmap2b (jax_rem sb) X Y)).
+  Proof.
+    intros H Hd. apply (@lift2_k SZ SZ SZ (ke_rem sb) (lowered_rem sb) (jax_rem sb) _ (ke_rem_sound sb)) with (5 := Hd); auto; try kuses_tac.
+    intros x y (Hx & Hy & Hxy). now apply rem_correct.
+  Qed.
+  Theorem floor_divide_lifted X Y : bcompat (shape X) (shape Y) ->
+    tdom2 (fun x y => in_int sb x /\ in_int sb y /\ div_dom sb x y) X Y ->
+    teq (kev_t (ke_floor_divide sb) [zt X; zt Y]) (zt (tmap2b (jax_floor_divide sb) X Y)).
+  Proof.
+    intros H Hd. apply (@lift2_k SZ SZ SZ (ke_floor_divide sb) (lowered_floor_divide sb) (jax_floor_divide sb) _ (ke_floor_divide_sound sb)) with (5 := Hd); auto; try kuses_tac.
+    intros x y (Hx & Hy & Hxy). now apply floor_divide_correct.
+  Qed.
+  Theorem mod_lifted X Y : in_int sb 1 -> bcompat (shape X) (shape Y) ->
+    tdom2 (fun x y => in_int sb x /\ in_int sb y) X Y ->
+    teq (kev_t (ke_mod sb) [zt X; zt Y]) (zt (tmap2b (jax_mod sb) X Y)).
+  Proof.
+    intros H1 H Hd. apply (@lift2_k SZ SZ SZ (ke_mod sb) (lowered_mod sb) (jax_mod sb) _ (ke_mod_sound sb)) with (5 := Hd); auto; try kuses_tac.
+    intros x y (Hx & Hy). now apply mod_correct.
+  Qed.
+  Theorem fmod_lifted X Y : in_int sb 1 -> bcompat (shape X) (shape Y) ->
+    tdom2 (fun x y => in_int sb x /\ in_int sb y) X Y ->
+    teq (kev_t (ke_fmod sb) [zt X; zt Y]) (zt (tmap2b (jax_fmod sb) X Y)).
+  Proof.
+    intros H1 H Hd. apply (@lift2_k SZ SZ SZ (ke_fmod sb) (lowered_fmod sb) (jax_fmod sb) _ (ke_fmod_sound sb)) with (5 := Hd); auto; try kuses_tac.
+    intros x y (Hx & Hy). now apply fmod_correct.
+  Qed.
+  Theorem bitand_lifted X Y : bcompat (shape X) (shape Y) ->
+    teq (kev_t (ke_bitand sb) [zt X; zt Y]) (zt (tmap2b (jax_bitand sb) X Y)).
+  Proof. intro H. apply (@lift2_k SZ SZ SZ (ke_bitand sb) (lowered_bitand sb) (jax_bitand sb) ttrue2); auto using tdom2_true; try kuses_tac; try (intros idx _; exact I). Qed.
+  Theorem bitor_lifted X Y : bcompat (shape X) (shape Y) ->
+    teq (kev_t (ke_bitor sb) [zt X; zt Y]) (zt (tmap2b (jax_bitor sb) X Y)).
+  Proof. intro H. apply (@lift2_k SZ SZ SZ (ke_bitor sb) (lowered_bitor sb) (jax_bitor sb) ttrue2); auto using tdom2_true; try kuses_tac; try (intros idx _; exact I). Qed.
+  Theorem bitxor_lifted X Y : bcompat (shape X) (shape Y) ->
+    teq (kev_t (ke_bitxor sb) [zt X; zt Y]) (zt (tmap2b (jax_bitxor sb) X Y)).
+  Proof. intro H. apply (@lift2_k SZ SZ SZ (ke_bitxor sb) (lowered_bitxor sb) (jax_bitxor sb) ttrue2); auto using tdom2_true; try kuses_tac; try (intros idx _; exact I). Qed.
+  (* shifts: the amounts are non-negative values of the element type *)
+  Theorem shift_left_lifted X S : bcompat (shape X) (shape S) ->
+    tdom2 (fun x s => in_int sb s /\ 0 <= s) X S ->
+    teq (kev_t (ke_shift_left sb) [zt X; zt S]) (zt (tmap2b (jax_shift_left sb) X S)).
+  Proof.
+    intros H Hd. apply (@lift2_k SZ SZ SZ (ke_shift_left sb) (lowered_shift_left sb) (jax_shift_left sb) _ (ke_shift_left_sound sb)) with (5 := Hd); auto; try kuses_tac.
+    intros x s (Hs & H0). now apply shift_left_correct.
+  Qed.
+  Theorem shift_right_logical_lifted X S : bcompat (shape X) (shape S) ->
+    tdom2 (fun x s => in_int sb x /\ in_int sb s /\ 0 <= s) X S ->
+    teq (kev_t (ke_shift_right_logical sb) [zt X; zt S]) (zt (tmap2b (jax_shift_right_logical sb) X S)).
+  Proof.
+    intros H Hd. apply (@lift2_k SZ SZ SZ (ke_shift_right_logical sb) (lowered_shift_right_logical sb) (jax_shift_right_logical sb) _ (ke_shift_right_logical_sound sb)) with (5 := Hd); auto; try kuses_tac.
+    intros x s (Hx & Hs & H0). now apply shift_right_logical_correct.
+  Qed.
+  Theorem shift_right_arithmetic_lifted X S : bcompat (shape X) (shape S) ->
+    tdom2 (fun x s => in_int sb x /\ in_int sb s /\ 0 <= s) X S ->
+    teq (kev_t (ke_shift_right_arithmetic sb) [zt X; zt S]) (zt (tmap2b (jax_shift_right_arithmetic sb) X S)).
+  Proof.
+    intros H Hd. apply (@lift2_k SZ SZ SZ (ke_shift_right_arithmetic sb) (lowered_shift_right_arithmetic sb) (jax_shift_right_arithmetic sb) _ (ke_shift_right_arithmetic_sound sb)) with (5 := Hd); auto; try kuses_tac.
+    intros x s (Hx & Hs & H0). now apply shift_right_arithmetic_correct.
+  Qed.
+  Theorem integer_pow_lifted n X : tdom1 (in_int sb) X ->
+    teq (kev_t (ke_integer_pow sb n) [zt X]) (zt (tmap (fun x => jax_integer_pow sb x n) X)).
+  Proof.
+    intro H. apply (@lift1_k SZ SZ (ke_integer_pow sb n) (fun x => lowered_integer_pow sb x n) (fun x => jax_integer_pow sb x n) (in_int sb)); auto.
+    - intro x. apply ke_integer_pow_sound.
+    - destruct n as [|[|k]]; cbn; tauto.
+    - intros x Hx. now apply integer_pow_correct.
+  Qed.
+  Theorem convert_int_lifted X : teq (kev_t (ke_convert_int sb) [zt X]) (zt (tmap (jax_convert_int sb) X)).
+  Proof.
+    apply (@lift1_k SZ SZ (ke_convert_int sb) (lowered_convert_int sb) (jax_convert_int sb) (fun _ => True)); auto; try kuses_tac; try (intros idx _; exact I).
+  Qed.
+  Theorem convert_of_bool_lifted (X : tensor bool) : teq (kev_t (ke_convert_of_bool sb) [bt X]) (zt (tmap (jax_convert_of_bool sb) X)).
+  Proof.
+    apply (@lift1_k SB SZ (ke_convert_of_bool sb) (lowered_convert_of_bool sb) (jax_convert_of_bool sb) (fun _ => True)); auto; try kuses_tac; try (intros idx _; exact I).
+  Qed.
+End Lifted.
+
+(* kernels that do not depend on the element type *)
+Theorem max_lifted X Y : bcompat (shape X) (shape Y) -> teq (kev_t ke_max [zt X; zt Y]) (zt (tmap2b jax_max X Y)).
+Proof. intro H. apply (@lift2_k SZ SZ SZ ke_max lowered_max jax_max ttrue2); auto using tdom2_true, max_correct; try kuses_tac; try (intros idx _; exact I). Qed.
+Theorem min_lifted X Y : bcompat (shape X) (shape Y) -> teq (kev_t ke_min [zt X; zt Y]) (zt (tmap2b jax_min X Y)).
+Proof. intro H. apply (@lift2_k SZ SZ SZ ke_min lowered_min jax_min ttrue2); auto using tdom2_true, min_correct; try kuses_tac; try (intros idx _; exact I). Qed.
+Theorem clamp_lifted X Lo Hi u : bcommon [shape X; shape Lo; shape Hi] u ->
+  teq (kev_t ke_clamp [zt X; zt Lo; zt Hi]) (zt (tmap3b jax_clamp X Lo Hi)).
+Proof. intro H. apply (@lift3_k SZ SZ SZ SZ ke_clamp lowered_clamp jax_clamp ttrue3) with (u := u); auto using tdom3_true, clamp_correct; try kuses_tac; try (intros idx _; exact I). Qed.
+Theorem clip_lifted X Lo Hi u : bcommon [shape X; shape Lo; shape Hi] u ->
+  teq (kev_t ke_clamp [zt X; zt Lo; zt Hi]) (zt (tmap3b jax_clip X Lo Hi)).
+Proof. intro H. apply (@lift3_k SZ SZ SZ SZ ke_clamp lowered_clip jax_clip ttrue3) with (u := u); auto using tdom3_true, clip_correct; try kuses_tac; try (intros idx _; exact I). Qed.
+Theorem relu_lifted X : teq (kev_t ke_relu [zt X]) (zt (tmap jax_relu X)).
+Proof. apply (@lift1_k SZ SZ ke_relu lowered_relu jax_relu (fun _ => True)); auto using relu_correct; try kuses_tac; try (intros idx _; exact I). Qed.
+Theorem relu6_lifted X : teq (kev_t ke_relu6 [zt X]) (zt (tmap jax_relu6 X)).
+Proof. apply (@lift1_k SZ SZ ke_relu6 lowered_relu6 jax_relu6 (fun _ => True)); auto using relu6_correct; try kuses_tac; try (intros idx _; exact I). Qed.
+Theorem select_n_lifted (P : tensor bool) X Y u : bcommon [shape P; shape X; shape Y] u ->
+  teq (kev_t ke_select_n [bt P; zt X; zt Y]) (zt (tmap3b jax_select_n P X Y)).
+Proof. intro H. apply (@lift3_k SB SZ SZ SZ ke_select_n lowered_select_n jax_select_n ttrue3) with (u := u); auto using tdom3_true; try kuses_tac; try (intros idx _; exact I). Qed.
+Theorem select_n_bool_lifted (P X Y : tensor bool) u : bcommon [shape P; shape X; shape Y] u ->
+  teq (kev_t ke_select_n_b [bt P; bt X; bt Y]) (bt (tmap3b jax_select_n_b P X Y)).
+Proof. intro H. apply (@lift3_k SB SB SB SB ke_select_n_b lowered_select_n_b jax_select_n_b ttrue3) with (u := u); auto using tdom3_true; try kuses_tac; try (intros idx _; exact I). Qed.
+Theorem select_n_int_lifted P X Y u : bcommon [shape P; shape X; shape Y] u ->
+  tdom3 (fun p _ _ => p = 0 \/ p = 1) P X Y ->
+  teq (kev_t ke_select_n_int [zt P; zt X; zt Y]) (zt (tmap3b jax_select_n_int P X Y)).
+Proof.
+  intros H Hd.
+  apply (@lift3_k SZ SZ SZ SZ ke_select_n_int lowered_select_n_int jax_select_n_int (fun p _ _ => p = 0 \/ p = 1) ke_select_n_int_sound)
+    with (u := u); auto; try kuses_tac; try exact Hd.
+  intros p x y Hp. now apply select_n_int_correct.
+Qed.
+Theorem where_lifted (P : tensor bool) X Y u : bcommon [shape P; shape X; shape Y] u ->
+  teq (kev_t ke_where [bt P; zt X; zt Y]) (zt (tmap3b jax_where P X Y)).
+Proof. intro H. apply (@lift3_k SB SZ SZ SZ ke_where lowered_where jax_where ttrue3) with (u := u); auto using tdom3_true; try kuses_tac; try (intros idx _; exact I). Qed.
+Theorem where_bool_lifted (P X Y : tensor bool) u : bcommon [shape P; shape X; shape Y] u ->
+  teq (kev_t ke_where_b [bt P; bt X; bt Y]) (bt (tmap3b jax_where_b P X Y)).
+Proof. intro H. apply (@lift3_k SB SB SB SB ke_where_b lowered_where_b jax_where_b ttrue3) with (u := u); auto using tdom3_true; try kuses_tac; try (intros idx _; exact I). Qed.
+Theorem bool_and_lifted (X Y : tensor bool) : bcompat (shape X) (shape Y) -> teq (kev_t ke_bool_and [bt X; bt Y]) (bt (tmap2b jax_bool_and X Y)).
+Proof. intro H. apply (@lift2_k SB SB SB ke_bool_and lowered_bool_and jax_bool_and ttrue2); auto using tdom2_true, bool_and_correct; try kuses_tac; try (intros idx _; exact I). Qed.
+Theorem bool_or_lifted (X Y : tensor bool) : bcompat (shape X) (shape Y) -> teq (kev_t ke_bool_or [bt X; bt Y]) (bt (tmap2b jax_bool_or X Y)).
+Proof. intro H. apply (@lift2_k SB SB SB ke_bool_or lowered_bool_or jax_bool_or ttrue2); auto using tdom2_true, bool_or_correct; try kuses_tac; try (intros idx _; exact I). Qed.
+Theorem bool_xor_lifted (X Y : tensor bool) : bcompat (shape X) (shape Y) -> teq (kev_t ke_bool_xor [bt X; bt Y]) (bt (tmap2b jax_bool_xor X Y)).
+Proof. intro H. apply (@lift2_k SB SB SB ke_bool_xor lowered_bool_xor jax_bool_xor ttrue2); auto using tdom2_true, bool_xor_correct; try kuses_tac; try (intros idx _; exact I). Qed.
+Theorem bool_not_lifted (X : tensor bool) : teq (kev_t ke_bool_not [bt X]) (bt (tmap jax_bool_not X)).
+Proof. apply (@lift1_k SB SB ke_bool_not lowered_bool_not jax_bool_not (fun _ => True)); auto using bool_not_correct; try kuses_tac; try (intros idx _; exact I). Qed.
+Theorem eq_lifted X Y : bcompat (shape X) (shape Y) -> teq (kev_t ke_eq [zt X; zt Y]) (bt (tmap2b jax_eq X Y)).
+Proof. intro H. apply (@lift2_k SZ SZ SB ke_eq lowered_eq jax_eq ttrue2); auto using tdom2_true; try kuses_tac; try (intros idx _; exact I). Qed.
+Theorem ne_lifted X Y : bcompat (shape X) (shape Y) -> teq (kev_t ke_ne [zt X; zt Y]) (bt (tmap2b jax_ne X Y)).
+Proof. intro H. apply (@lift2_k SZ SZ SB ke_ne lowered_ne jax_ne ttrue2); auto using tdom2_true; try kuses_tac; try (intros idx _; exact I). Qed.
+Theorem lt_lifted X Y : bcompat (shape X) (shape Y) -> teq (kev_t ke_lt [zt X; zt Y]) (bt (tmap2b jax_lt X Y)).
+Proof. intro H. apply (@lift2_k SZ SZ SB ke_lt lowered_lt jax_lt ttrue2); auto using tdom2_true; try kuses_tac; try (intros idx _; exact I). Qed.
+Theorem le_lifted X Y : bcompat (shape X) (shape Y) -> teq (kev_t ke_le [zt X; zt Y]) (bt (tmap2b jax_le X Y)).
+Proof. intro H. apply (@lift2_k SZ SZ SB ke_le lowered_le jax_le ttrue2); auto using tdom2_true, le_correct; try kuses_tac; try (intros idx _; exact I). Qed.
+Theorem gt_lifted X Y : bcompat (shape X) (shape Y) -> teq (kev_t ke_gt [zt X; zt Y]) (bt (tmap2b jax_gt X Y)).
+Proof. intro H. apply (@lift2_k SZ SZ SB ke_gt lowered_gt jax_gt ttrue2); auto using tdom2_true, gt_correct; try kuses_tac; try (intros idx _; exact I). Qed.
+Theorem ge_lifted X Y : bcompat (shape X) (shape Y) -> teq (kev_t ke_ge [zt X; zt Y]) (bt (tmap2b jax_ge X Y)).
+Proof. intro H. apply (@lift2_k SZ SZ SB ke_ge lowered_ge jax_ge ttrue2); auto using tdom2_true, ge_correct; try kuses_tac; try (intros idx _; exact I). Qed.
+Theorem eq_bool_lifted (X Y : tensor bool) : bcompat (shape X) (shape Y) -> teq (kev_t ke_eq_b [bt X; bt Y]) (bt (tmap2b jax_eq_b X Y)).
+Proof. intro H. apply (@lift2_k SB SB SB ke_eq_b lowered_eq_b jax_eq_b ttrue2); auto using tdom2_true, eq_b_correct; try kuses_tac; try (intros idx _; exact I). Qed.
+Theorem ne_bool_lifted (X Y : tensor bool) : bcompat (shape X) (shape Y) -> teq (kev_t ke_ne_b [bt X; bt Y]) (bt (tmap2b jax_ne_b X Y)).
+Proof. intro H. apply (@lift2_k SB SB SB ke_ne_b lowered_ne_b jax_ne_b ttrue2); auto using tdom2_true, ne_b_correct; try kuses_tac; try (intros idx _; exact I). Qed.
+Theorem convert_to_bool_lifted X : teq (kev_t ke_convert_to_bool [zt X]) (bt (tmap jax_convert_to_bool X)).
+Proof. apply (@lift1_k SZ SB ke_convert_to_bool lowered_convert_to_bool jax_convert_to_bool (fun _ => True)); auto using convert_to_bool_correct; try kuses_tac; try (intros idx _; exact I). Qed.
+(* rounding: every element is an exact fraction n/d with d > 0 (every finite float is) *)
+Theorem floor_lifted X : tdom1 frac_ok X -> teq (kev_t ke_floor [qt X]) (zt (tmap jax_floor X)).
+Proof. intro H. apply (@lift1_k SQ SZ ke_floor lowered_floor jax_floor frac_ok); auto using floor_correct; try kuses_tac; try (intros idx _; exact I). Qed.
+Theorem ceil_lifted X : tdom1 frac_ok X -> teq (kev_t ke_ceil [qt X]) (zt (tmap jax_ceil X)).
+Proof. intro H. apply (@lift1_k SQ SZ ke_ceil lowered_ceil jax_ceil frac_ok); auto using ceil_correct; try kuses_tac; try (intros idx _; exact I). Qed.
+Theorem round_even_lifted X : tdom1 frac_ok X -> teq (kev_t ke_round [qt X]) (zt (tmap jax_round_even X)).
+Proof. intro H. apply (@lift1_k SQ SZ ke_round lowered_round jax_round_even frac_ok); auto using round_even_correct; try kuses_tac; try (intros idx _; exact I). Qed.
+Theorem round_away_lifted X : tdom1 frac_ok X -> teq (kev_t ke_round_away [qt X]) (zt (tmap jax_round_away X)).
+Proof. intro H. apply (@lift1_k SQ SZ ke_round_away lowered_round_away jax_round_away frac_ok); auto using round_away_correct; try kuses_tac; try (intros idx _; exact I). Qed.
